@@ -168,7 +168,7 @@ class USMSecurityParameters:
         """
         Construct a USMSecurityParameters instance from an SNMP/X690 Sequence
         """
-        return USMSecurityParameters(
+        output = USMSecurityParameters(
             authoritative_engine_id=seq[0].pythonize(),
             authoritative_engine_boots=seq[1].pythonize(),
             authoritative_engine_time=seq[2].pythonize(),
@@ -176,6 +176,19 @@ class USMSecurityParameters:
             auth_params=seq[4].pythonize(),
             priv_params=seq[5].pythonize(),
         )
+        # These values are kept (discovery) and used to build later requests.
+        # So refuse anything that is not of the type defined in RFC 3414
+        # right away, instead of failing on every following request.
+        if not (
+            isinstance(output.authoritative_engine_id, bytes)
+            and isinstance(output.authoritative_engine_boots, int)
+            and isinstance(output.authoritative_engine_time, int)
+            and isinstance(output.user_name, bytes)
+            and isinstance(output.auth_params, bytes)
+            and isinstance(output.priv_params, bytes)
+        ):
+            raise SnmpError("Malformed USM security parameters")
+        return output
 
     def __bytes__(self) -> bytes:
         return bytes(self.as_snmp_type())
